@@ -108,6 +108,9 @@ class Scheduler:
         self.choices = []  # type: List[Tuple[int, int]]  (number of options, chosen index)
         self.events = []  # type: List[Tuple[Any, ...]]  free-form observations of the wrappers
         self.error = None  # type: Optional[BaseException]
+        #: called as on_park(tid, steps_done, label) when a thread reaches a yield point, i.e. right after its
+        #: previous operation took effect and before anything else is scheduled (used to stage external events)
+        self.on_park = None  # type: Optional[Callable[[int, int, str], None]]
 
     # ---- called from worker threads ----
     def current(self) -> Optional[int]:
@@ -163,6 +166,12 @@ class Scheduler:
         if t.crashed:
             return NOOP
         t.label = label
+        if self.on_park is not None:
+            self._tls.tid = None  # the callback's own file operations are not yield points
+            try:
+                self.on_park(tid, t.steps, label)
+            finally:
+                self._tls.tid = tid
         t.parked = True
         if self._starting:
             self._main.release()
